@@ -62,4 +62,24 @@ def modelReconnect (reply : Reply) : Option Bool × Nat :=
   let r := resume (.opened []) [] true reply
   (r.err, (r.states.getLast?.map ConnState.code).getD established)
 
+/-- Several lives of ONE component value (C16 quantifies over all server replies; nothing in it depends on what an
+earlier connection of the same component ended with): per life the harness reports the error class, the state
+afterwards and how many times the event handler was told "session established" during that life. A handshake reply
+yields nil, the established state and its announcement; any other reply an error, a non-established state and no
+announcement - whatever the earlier lives were. -/
+def holdsLife (reply : Reply) (err : Option Bool) (stateAfter : Nat) (announced : Nat) : Bool :=
+  if reply == .handshake then err.isNone && stateAfter == established && decide (0 < announced)
+  else err.isSome && stateAfter != established && announced == 0
+
+def holdsLives (rs : List Reply) (obs : List (Option Bool × Nat × Nat)) : Bool :=
+  rs.length == obs.length && (rs.zip obs).all fun (r, e, a, n) => holdsLife r e a n
+
+/-- the model: every life is `resume` on a fresh connection; the state afterwards is the last one it announced -/
+def modelLife (reply : Reply) : Option Bool × Nat × Nat :=
+  let r := resume (.opened []) [] true reply
+  (r.err, (r.states.getLast?.map ConnState.code).getD established,
+    (r.states.filter (· == .sessionEstablished)).length)
+
+def modelLives (rs : List Reply) : List (Option Bool × Nat × Nat) := rs.map modelLife
+
 end XmppVerif.Spec.C16
